@@ -109,8 +109,10 @@ def check_appliers(res, rng, n_cases):
         gl = (g0[0].copy(), g0[1].copy(), g0[2].copy()); gh = (g0[0].copy(), g0[1].copy(), g0[2].copy())
         cl = int(_call_low(gl, P, Q, D, starts, T)); ch = int(_call_high(gh, P, Q, D, starts))
         lines = ["apply low %d %d %d | %s | %s" % (T, n, k, graph_tokens(g0), ups),
-                 "apply high %d %d %d | %s | %s" % (T, n, k, graph_tokens(g0), ups)]
-        ml, mh = run_driver(lines)
+                 "apply high %d %d %d | %s | %s" % (T, n, k, graph_tokens(g0), ups),
+                 # the TRANSLATED apply_graph_updates_low_memory (Gen/Kernels.lean), same graph, same blocks of updates
+                 "gk_apply %d %d %d | %s | %s | %s" % (T, n, k, graph_tokens(g0), ups, ints_row(starts))]
+        ml, mh, gl_out = run_driver([" ".join(l.split()) for l in lines])
         il = "%d | %s" % (cl, graph_tokens(gl)); ih = "%d | %s" % (ch, graph_tokens(gh))
         case = {"n": n, "k": k, "T": T, "X": X.tolist(), "graph": [a.tolist() for a in g0],
                 "P": P.tolist(), "Q": Q.tolist(), "starts": starts.tolist()}
@@ -122,6 +124,9 @@ def check_appliers(res, rng, n_cases):
             res.corr_fail("apply_low_bit_exact", case, ml[:200], il[:200]); ok = False
         if mh != ih:
             res.corr_fail("apply_high_bit_exact", case, mh[:200], ih[:200]); ok = False
+        res.count("translated:apply_graph_updates_low_memory")
+        if gl_out != il:
+            res.corr_fail("translated-kernel:apply_graph_updates_low_memory", case, gl_out[:200], il[:200]); ok = False
         if il != ih:
             res.violation("lowmem:appliers", "apply_graph_updates_high_memory and _low_memory give different graphs/counts "
                           "(changes %d vs %d) on the same update list" % (ch, cl), case)
